@@ -34,6 +34,7 @@ type fieldSpec struct {
 	required map[string]bool
 	deflt    string
 	defltS   []string // slice fields: the default's elements (tag text is the JSON array)
+	emb      bool     // declared in an embedded struct (a shared base request), promoted
 }
 
 var kinds = []reflect.Kind{reflect.Bool, reflect.Int, reflect.Int8, reflect.Int16, reflect.Int32, reflect.Int64, reflect.Uint, reflect.Uint8, reflect.Uint16, reflect.Uint32, reflect.Uint64, reflect.Float32, reflect.Float64, reflect.String}
@@ -191,6 +192,7 @@ type reqSpec struct {
 	stream    bool                           // the body is a stream of unknown length (a chunked request on a streaming server)
 	only      string                         // "" = Bind; otherwise the single-source entry point BindQuery/BindHeader/BindForm/BindPath
 	emptyJSON bool                           // JSON media type, empty body
+	broken    int                            // >0: the streamed JSON body fails (the peer goes away) after broken-1 bytes / before its end
 	ctCase    int                            // spelling of the media type: 0 lower case, 1 mixed case, 2 upper-case type with a parameter
 	vals      map[string]map[string][]string // source -> key -> values
 }
@@ -244,7 +246,15 @@ func buildReq(rs reqSpec, fields []fieldSpec) (*protocol.Request, param.Params) 
 		}
 		b, _ := json.Marshal(m)
 		req.Header.SetContentTypeBytes([]byte([]string{"application/json", "Application/JSON", "APPLICATION/json; charset=utf-8"}[rs.ctCase]))
-		setBody(req, b, rs.stream)
+		if rs.stream && rs.broken > 0 {
+			n := rs.broken - 1
+			if n > len(b) {
+				n = len(b)
+			}
+			req.SetBodyStream(io.MultiReader(bytes.NewReader(b[:n]), failingReader{}), -1)
+		} else {
+			setBody(req, b, rs.stream)
+		}
 	} else if rs.emptyJSON {
 		// a JSON media type on a request whose body turns out to be empty (a chunked
 		// request with only the last chunk, or Content-Length: 0): no body source, the
@@ -283,6 +293,11 @@ func buildReq(rs reqSpec, fields []fieldSpec) (*protocol.Request, param.Params) 
 	return req, ps
 }
 
+// failingReader is the rest of a chunked body whose sender went away.
+type failingReader struct{}
+
+func (failingReader) Read([]byte) (int, error) { return 0, io.ErrUnexpectedEOF }
+
 // setBody gives the request its body the way the server's reader does: complete with its
 // length, or (a chunked request on a streaming server) as a stream of unknown length
 func setBody(req *protocol.Request, b []byte, stream bool) {
@@ -309,10 +324,10 @@ func reference(fields []fieldSpec, rs reqSpec) (map[string]string, bool) {
 				continue
 			}
 			vs := rs.vals[s][k]
-			if s == "form" && len(vs) == 0 && !f.slice {
-				// documented: a form-tagged scalar falls back to the URL query argument of the
-				// same name; slice fields have no such fallback (they follow the statement as
-				// written: only sources named in the tags)
+			if s == "form" && len(vs) == 0 {
+				// documented: a form-tagged field falls back to the URL query argument of the
+				// same name (whether the request carries the key is a fact about the request
+				// and the tag, not about the field being a list)
 				vs = rs.vals["query"][k]
 			}
 			if len(vs) > 0 {
@@ -375,8 +390,8 @@ func reference(fields []fieldSpec, rs reqSpec) (map[string]string, bool) {
 
 func observe(fields []fieldSpec, v reflect.Value) map[string]string {
 	out := map[string]string{}
-	for i, f := range fields {
-		fv := v.Elem().Field(i)
+	for _, f := range fields {
+		fv := v.Elem().FieldByName(f.name)
 		if f.ptr {
 			if fv.IsNil() {
 				out[f.name] = "<nil>"
@@ -479,6 +494,19 @@ func genFields(r *mon.Rand) []fieldSpec {
 		}
 		fields = append(fields, f)
 	}
+	if r.Chance(5) {
+		// some of the fields sit in an embedded struct
+		n := 0
+		for i := range fields {
+			if r.Bool() {
+				fields[i].emb = true
+				n++
+			}
+		}
+		if n == 0 {
+			fields[r.Intn(len(fields))].emb = true
+		}
+	}
 	return fields
 }
 
@@ -534,6 +562,9 @@ func genReqSpec(r *mon.Rand, fields []fieldSpec) reqSpec {
 	rs.multipart = r.Chance(3)
 	rs.stream = r.Chance(5)
 	rs.emptyJSON = len(rs.vals["json"]) == 0 && len(rs.vals["form"]) == 0 && r.Chance(4)
+	if rs.stream && len(rs.vals["json"]) > 0 && r.Chance(4) {
+		rs.broken = 1 + r.Intn(40)
+	}
 	if r.Chance(3) {
 		rs.ctCase = 1 + r.Intn(2)
 	}
@@ -541,13 +572,23 @@ func genReqSpec(r *mon.Rand, fields []fieldSpec) reqSpec {
 }
 
 func (rs reqSpec) desc() string {
-	return fmt.Sprintf("%v multipart=%v stream-of-unknown-length=%v media-type-spelling=%d json-media-type-with-empty-body=%v entry-point=Bind%s", rs.vals, rs.multipart, rs.stream, rs.ctCase, rs.emptyJSON, rs.only)
+	return fmt.Sprintf("%v multipart=%v stream-of-unknown-length=%v media-type-spelling=%d json-media-type-with-empty-body=%v stream-fails-after=%d entry-point=Bind%s", rs.vals, rs.multipart, rs.stream, rs.ctCase, rs.emptyJSON, rs.broken-1, rs.only)
 }
 
 func typeOf(fields []fieldSpec) reflect.Type {
-	var sfs []reflect.StructField
+	var sfs, base []reflect.StructField
 	for _, f := range fields {
-		sfs = append(sfs, reflect.StructField{Name: f.name, Type: f.typ(), Tag: f.tag()})
+		sf := reflect.StructField{Name: f.name, Type: f.typ(), Tag: f.tag()}
+		if f.emb {
+			base = append(base, sf)
+		} else {
+			sfs = append(sfs, sf)
+		}
+	}
+	if len(base) > 0 {
+		// the embedded struct's fields are promoted: for the binder and for the JSON
+		// unmarshaller alike they are fields of the outer struct
+		sfs = append([]reflect.StructField{{Name: "Base", Type: reflect.StructOf(base), Anonymous: true}}, sfs...)
 	}
 	return reflect.StructOf(sfs)
 }
@@ -595,6 +636,13 @@ func judge(fields []fieldSpec, rs reqSpec, got map[string]string, err error) (st
 	if err != nil && strings.HasPrefix(err.Error(), "PANIC") {
 		return "bind-panic", err.Error()
 	}
+	if rs.stream && rs.broken > 0 && len(rs.vals["json"]) > 0 && rs.only == "" {
+		// the body could not be read: that is not a request without a body
+		if err == nil {
+			return "body-read-error-lost", fmt.Sprintf("reading the streamed JSON body failed with %v but Bind returned nil; fields read back: %v", io.ErrUnexpectedEOF, got)
+		}
+		return "", ""
+	}
 	if wantErr {
 		if err == nil {
 			return "missing-error", fmt.Sprintf("Bind returned nil but a required value is missing or a value does not convert; fields read back: %v", got)
@@ -619,7 +667,11 @@ func judge(fields []fieldSpec, rs reqSpec, got map[string]string, err error) (st
 func describe(fields []fieldSpec) string {
 	var parts []string
 	for _, f := range fields {
-		parts = append(parts, fmt.Sprintf("%s %v `%s`", f.name, f.typ(), f.tag()))
+		e := ""
+		if f.emb {
+			e = "(promoted from an embedded struct) "
+		}
+		parts = append(parts, fmt.Sprintf("%s%s %v `%s`", e, f.name, f.typ(), f.tag()))
 	}
 	return "struct{ " + strings.Join(parts, "; ") + " }"
 }
